@@ -38,7 +38,7 @@ func (P) Engine() string { return "E1+E2" }
 func (P) Describe() harness.Description {
 	return harness.Description{
 		MustHit: []string{"capacity_reused_after_exit", "concurrent_rejections"},
-		Level: "exploration",
+		Level:   "exploration",
 		Rule: "case = (1-3 resources, 1-3 isolation rules per resource, 10-60 operations: requests with batches over the full uint32 range (>=1) held open, exits in any order, ticks). " +
 			"E1: admit iff for every rule live(res)+b <= N in unbounded integers, TriggeredRule/TriggeredValue as the reference, node concurrency == live after every op. " +
 			"E2 (30%): k=2-4 callers, in-flight entries (counted between return of Entry and invocation of Exit) never exceed N+(k-1); at quiescence concurrency is 0. " +
